@@ -26,9 +26,9 @@ type stepDebugger struct {
 var errBudget = errors.New("verification step budget exhausted")
 
 func (d *stepDebugger) HandleInput(input string) (interface{}, error) { return nil, nil }
-func (d *stepDebugger) StopThreads(t time.Duration) bool               { return false }
-func (d *stepDebugger) BreakOnStart(flag bool)                         {}
-func (d *stepDebugger) BreakOnError(flag bool)                         {}
+func (d *stepDebugger) StopThreads(t time.Duration) bool              { return false }
+func (d *stepDebugger) BreakOnStart(flag bool)                        {}
+func (d *stepDebugger) BreakOnError(flag bool)                        {}
 func (d *stepDebugger) SetLockingState(mutexeOwners map[string]uint64, mutexLog *datautil.RingBuffer) {
 }
 func (d *stepDebugger) SetThreadPool(tp *pool.ThreadPool) {}
@@ -45,16 +45,16 @@ func (d *stepDebugger) VisitStepInState(node *parser.ASTNode, vs parser.Scope, t
 func (d *stepDebugger) VisitStepOutState(node *parser.ASTNode, vs parser.Scope, tid uint64, soErr error) util.TraceableRuntimeError {
 	return nil
 }
-func (d *stepDebugger) RecordThreadFinished(tid uint64)                                  {}
-func (d *stepDebugger) SetBreakPoint(source string, line int)                            {}
-func (d *stepDebugger) DisableBreakPoint(source string, line int)                        {}
-func (d *stepDebugger) RemoveBreakPoint(source string, line int)                         {}
-func (d *stepDebugger) ExtractValue(threadID uint64, varName, destVarName string) error  { return nil }
-func (d *stepDebugger) InjectValue(threadID uint64, varName, expression string) error    { return nil }
-func (d *stepDebugger) Continue(threadID uint64, contType util.ContType)                 {}
-func (d *stepDebugger) Status() interface{}                                              { return nil }
-func (d *stepDebugger) LockState() interface{}                                           { return nil }
-func (d *stepDebugger) Describe(threadID uint64) interface{}                             { return nil }
+func (d *stepDebugger) RecordThreadFinished(tid uint64)                                 {}
+func (d *stepDebugger) SetBreakPoint(source string, line int)                           {}
+func (d *stepDebugger) DisableBreakPoint(source string, line int)                       {}
+func (d *stepDebugger) RemoveBreakPoint(source string, line int)                        {}
+func (d *stepDebugger) ExtractValue(threadID uint64, varName, destVarName string) error { return nil }
+func (d *stepDebugger) InjectValue(threadID uint64, varName, expression string) error   { return nil }
+func (d *stepDebugger) Continue(threadID uint64, contType util.ContType)                {}
+func (d *stepDebugger) Status() interface{}                                             { return nil }
+func (d *stepDebugger) LockState() interface{}                                          { return nil }
+func (d *stepDebugger) Describe(threadID uint64) interface{}                            { return nil }
 
 // ---------------------------------------------------------------------
 // classification of a panic raised while evaluating a returned tree: C07
